@@ -84,6 +84,23 @@ pub fn replay_case(case: &Value, tally: &mut Tally) {
         // Content through get and iter.
         let items: Vec<u64> = match guarded(|| wm.iter().collect::<Vec<u64>>()) { Ok(v) => v, Err(_) => vec![u64::MAX] };
         tally.check(hkey(&[ckey, 4]), nt, &|| ctx("iter", &json!(0), 0), &case["vals"], &json!(items));
+        // a partly consumed iterator skipping by huge amounts: None, and it stays exhausted
+        let skipped = guarded_val(|| {
+            let mut out = Vec::new();
+            for k in [usize::MAX, usize::MAX - 1, 1usize << 63] {
+                let mut it = wm.iter();
+                let first = it.next();
+                let a = it.nth(k);
+                let b = it.next();
+                let mut it2 = wm.iter();
+                let _ = it2.next_back();
+                let c = it2.nth_back(k);
+                out.push(json!([first.is_some(), a.is_none(), b.is_none(), it.len(), c.is_none(), it2.len()]));
+            }
+            Value::Array(out)
+        });
+        let fs = !vals.is_empty();
+        tally.check(hkey(&[ckey, 5]), nt, &|| ctx("iter: next / next_back, then nth / nth_back(huge)", &json!(0), 0), &json!([[fs, true, true, 0, true, 0], [fs, true, true, 0, true, 0], [fs, true, true, 0, true, 0]]), &skipped);
         for i in 0..len {
             tally.check(hkey(&[ckey, 5, i as u64]), nt, &|| ctx("get", &json!(i), 0), &json!(vals[i]), &query(wm, core, "get", i, 0));
         }
